@@ -49,7 +49,8 @@ def main():
     prop = a.prop.upper()
     rep = core.Report(prop)
     try:
-        d = core.ensure_facts(force=(tier == "thorough" and os.environ.get("VERIF_NO_REEXTRACT") is None and False))
+        # thorough: bypass the fact cache (re-extract from the working tree) unless told otherwise
+        d = core.ensure_facts(force=(tier == "thorough" and os.environ.get("VERIF_NO_REEXTRACT") is None))
         ctx = Ctx(d, tier)
         mod = importlib.import_module(prop.lower())
         mod.run(ctx, rep)
